@@ -1070,8 +1070,11 @@ package kcp
 //@   loop 1 invariant @C09 ref(txqueue) == ref(old(txqueue)) && off(txqueue) == off(old(txqueue)) + npkts && len(txqueue) == len(old(txqueue)) - npkts && npkts >= 0 && nbytes >= 0
 //@   loop 1 invariant s.imm() && (forall k int :: 0 <= k && k < len(txqueue) ==> len(txqueue[k].Buffers) >= 1)
 //@   loop 2 invariant s.imm() && (forall k int :: 0 <= k && k < len(txqueue) ==> len(txqueue[k].Buffers) >= 1) && nbytes >= 0 && npkts >= 0
-//@ func fillRand trusted counted
+// fillRand: callers use the contract (frame trusted); the body is verified for handing the whole
+// slice to the entropy source (C09: every byte of a nonce is drawn afresh)
+//@ func fillRand nomodcheck counted
 //@   modifies p[..]
+//@   callsite io.ReadFull requires @C09 [the-whole-nonce-is-drawn-from-the-entropy-source] ref(buf) == ref(p) && off(buf) == off(p) && len(buf) == len(p)
 //@ pred (s *UDPSession) ppinv() = s.imm() && s.hdr() && (s.fecEncoder != nil ==> s.fecEncoder.wf() && s.fecEncoder.maxSize + s.ov() <= 1500)
 // parity rows before (room for the AEAD tag) and after sealing
 //@ pred eccrow(r []byte, hs int, room int) = hs <= len(r) && len(r) + room <= 1500 && cap(r) == 1500
@@ -1081,6 +1084,7 @@ package kcp
 // lower bound until its own next receive) - and the request arm re-arms the die case.
 //@ soleconsumer UDPSession.postProcess: UDPSession.chPostProcessing
 //@ func UDPSession.postProcess
+//@   callsite fillRand requires @C09 [the-whole-nonce-field-is-refreshed] len(p) == (typeis(s.block, ptr_aeadCrypt) ? aeadns(unboxptr(s.block, aeadCrypt).aead) : 16)
 //@   callsite fecEncoder.encode requires @C19 [an-out-of-band-packet-takes-no-sequence-id-and-no-slot-of-a-shard-group] !oob
 //@   callsite fecEncoder.encodeOOB requires @C19 [only-out-of-band-packets-get-the-out-of-band-frame] oob
 //@   loop 1 invariant @C15 [the-goroutine-can-always-see-the-close] chDie == s.die || pending(s.chPostProcessing)
